@@ -15,7 +15,7 @@ TIMES = [0.0, 0.0, 0.5, 1.0, 1.0, 2.0, 3.0, 4.0]
 PRIO_SMALL = [-2, -1, 0, 0, 0, 1, 1, 2]
 PRIOS = st.one_of(st.sampled_from(PRIO_SMALL), st.sampled_from(PRIO_SMALL), st.sampled_from(PRIO_SMALL),
                   st.sampled_from(["min", "max", -5, 7]))
-USER_SIGS = [-2, -5, 1, 2, 9]            # CMB_PROCESS_INTERRUPTED, a timeout-like value, user values
+USER_SIGS = [-2, -2, 1, 2, 9]            # CMB_PROCESS_INTERRUPTED and user values (timers use other values)
 TIMER_SIGS = [-5, -5, 3, 4]
 
 # kind -> weight, per profile
